@@ -2,6 +2,7 @@ package vm
 
 import (
 	"fmt"
+	"strings"
 	"time"
 
 	"golang.org/x/tools/go/ssa"
@@ -49,6 +50,7 @@ type Violation struct {
 	Inputs   map[string]string
 	Order    []string
 	Observed []Observation // what the executor predicts the real code reports under Model
+	Notes    []string
 	Concrete bool          // failed on the explored path itself (no solver call needed)
 }
 
@@ -76,6 +78,7 @@ type Explorer struct {
 	Viol   []Violation
 	OnPath func(e *Explorer, r *PathReport)
 
+	BudgetViolations bool
 	MaxPaths   int
 	Deadline   time.Time
 	MaxViol    int
@@ -103,6 +106,7 @@ func NewExplorer(p *Program, s *sym.Solver) *Explorer {
 	m := NewMachine(p.Prog, p.Pkg)
 	registerHarness(m)
 	registerOracle(m)
+	registerFrame(m)
 	return &Explorer{P: p, M: m, S: s, MaxPaths: 200000, MaxViol: 3, SampleKeep: 3}
 }
 
@@ -179,6 +183,12 @@ func (e *Explorer) lits(pc []Decision) []*sym.Term {
 }
 
 func (e *Explorer) incomplete(reason string) {
+	if i := strings.Index(reason, " at "); i > 0 && strings.Contains(reason, "budget exhausted") {
+		reason = reason[:i]
+	}
+	if len(reason) > 300 {
+		reason = reason[:300] + "…"
+	}
 	for _, r := range e.Stats.Incomplete {
 		if r == reason {
 			return
@@ -290,7 +300,13 @@ func (e *Explorer) Explore(inst *Instance) {
 		case PathAbort:
 			e.Stats.Aborts++
 			e.Stats.AbortReasons[rep.Reason]++
-			e.incomplete("aborted path: " + firstLine(rep.Reason))
+			if e.BudgetViolations && strings.Contains(rep.Reason, "step budget exhausted") {
+				e.Stats.Obligations++
+				e.Viol = append(e.Viol, Violation{Instance: e.Inst, Label: "terminates", Info: firstLine(rep.Reason), Model: rep.Model,
+					Inputs: rep.PS.Inputs, Order: rep.PS.InputOrder, Observed: rep.PS.Observations})
+			} else {
+				e.incomplete("aborted path: " + firstLine(rep.Reason))
+			}
 		case PathPanic:
 			e.Stats.EscapedPanics++
 			e.Stats.Paths++
@@ -445,6 +461,6 @@ func (e *Explorer) addViolation(rep *PathReport, ob Obligation, model sym.Model,
 	}
 	e.Viol = append(e.Viol, Violation{
 		Instance: e.Inst, Label: ob.Label, Info: info, Model: r2.Model,
-		Inputs: r2.PS.Inputs, Order: r2.PS.InputOrder, Observed: r2.PS.Observations, Concrete: concrete,
+		Inputs: r2.PS.Inputs, Order: r2.PS.InputOrder, Observed: r2.PS.Observations, Notes: r2.PS.Notes, Concrete: concrete,
 	})
 }
